@@ -89,6 +89,40 @@ def xparse(src):
     return _state["ex"].parse(src, ctx=set(), filename="<verif>")
 
 
+def _is_exec_list(n):
+    import ast
+
+    return isinstance(n, ast.List) and n.elts and isinstance(n.elts[0], ast.Attribute) and n.elts[0].attr == "executable" \
+        and isinstance(n.elts[0].value, ast.Call) and isinstance(n.elts[0].value.func, ast.Name) and n.elts[0].value.func.id == "__import__"
+
+
+def canon_tree(tree, depth=0):
+    """astcanon.root_canon, with one refinement: the text of a `( ... )` subshell (xonsh hands it as a
+    raw string to `xonsh -c`) is itself a xonsh program, so it is compared by *its* canonical tree,
+    not byte for byte (when it does not parse, the raw text is compared)."""
+    import ast
+
+    if tree is not None and depth < 5:
+        for node in ast.walk(tree):
+            if not (isinstance(node, ast.BinOp) and isinstance(node.op, ast.Add) and isinstance(node.right, ast.List)):
+                continue
+            r = node.right
+            if len(r.elts) != 2 or not all(isinstance(e, ast.Constant) for e in r.elts) or r.elts[0].value != "-c" \
+                    or not isinstance(r.elts[1].value, str):
+                continue
+            left = node.left
+            if not (_is_exec_list(left) or (isinstance(left, ast.BinOp) and _is_exec_list(left.right))):
+                continue
+            try:
+                inner = canon_tree(xparse(r.elts[1].value), depth + 1)
+            except _Timeout:
+                raise
+            except Exception:  # noqa: BLE001
+                continue
+            r.elts[1].value = ("<subshell>", inner)
+    return astcanon.root_canon(tree)
+
+
 def scan(src):
     """(comment texts, number of logical lines) from xonsh's tokenizer in the formatter's mode."""
     xtok = _state["xtok"]
@@ -120,7 +154,7 @@ def verdict(ref, cand):
         return "output-unparsable", "RecursionError while parsing the formatted text"
     except Exception as e:  # noqa: BLE001
         return "output-unparsable", "the parser raises %s on the formatted text: %s" % (type(e).__name__, str(e)[:120])
-    c2 = astcanon.root_canon(t2)
+    c2 = canon_tree(t2)
     if c2 != ref.canon:
         return "tree-differs", astcanon.first_diff(ref.canon, c2) or "?"
     try:
@@ -190,7 +224,7 @@ def check_source(src, family="?", reduce=True, want_labels=True, tolerate=True):
             return res
         res.out = out
         try:
-            canon = astcanon.root_canon(tree)
+            canon = canon_tree(tree)
             coms, nlog = scan(src)
         except RecursionError:
             res.status = "skip:input-too-deep"
@@ -242,70 +276,143 @@ def check_source(src, family="?", reduce=True, want_labels=True, tolerate=True):
         signal.alarm(0)
 
 
+def _units(script, det):
+    """The formatter's edits as independently revertible units: every edit on its own, except the
+    indentation of logical lines, which only makes sense as a whole (one unit)."""
+    units, indent = [], []
+    for e, d in zip(script, det):
+        if d["rule"] == "indent":
+            indent.append((e, d))
+        else:
+            units.append([(e, d)])
+    if indent:
+        units.append(indent)
+    return units
+
+
+def _apply(src, units):
+    return A.apply_edits(src, [e for u in units for e, _ in u])
+
+
+def _culprits(ref, units):
+    """Maximal set of units that can be applied without breaking the oracle (delta debugging by
+    bisection); returns (applied, withheld).  Every withheld unit breaks the oracle when added to the
+    applied ones."""
+    applied, withheld = [], []
+
+    def add(chunk):
+        if not chunk:
+            return
+        if verdict(ref, _apply(ref.src, applied + chunk)) is None:
+            applied.extend(chunk)
+            return
+        if len(chunk) == 1:
+            withheld.append(chunk[0])
+            return
+        mid = len(chunk) // 2
+        add(chunk[:mid])
+        add(chunk[mid:])
+
+    add(list(units))
+    return applied, withheld
+
+
 def _attribute(res, ref, out, script, family, c17_findings, tolerate=True):
-    """`out` fails.  First tolerate exactly the recorded findings: put back every edit that satisfies
-    the narrow predicate of an open finding (counted in excluded_known) and judge the rest of the
-    formatter's work; what still fails is isolated edit by edit (`_peel`).  One case in ten is peeled
-    with the recorded shapes left in, so the attribution path itself stays exercised."""
+    """`out` fails.  Which of the formatter's edits have to be taken back for the rest to be right?
+    First tolerate exactly the recorded findings: withhold every edit that satisfies the narrow
+    predicate of an open finding (counted in excluded_known) and judge the rest; what still fails is
+    bisected.  One case in sixteen is bisected with the recorded shapes left in, so the attribution
+    path itself stays exercised."""
     src = ref.src
     open_ids = _state["open"]
     _, det = A.signature(src, script, ref.tree)
-    known = {}
-    for e, d in zip(script, det):
-        fid = c17_findings.edit_finding(d)
-        if fid is not None and fid in open_ids:
-            known.setdefault(fid, []).append(e)
-    if tolerate and known and common.h64(src)[-1] not in "0":          # deterministic 15-in-16 (no random draw outside Hypothesis)
-        for fid in known:
-            res.tolerated[fid] = res.tolerated.get(fid, 0) + 1
-        drop = {e for es in known.values() for e in es}
-        rest = [e for e in script if e not in drop]
-        if verdict(ref, A.apply_edits(src, rest)) is None:
-            return
-        _peel(res, ref, rest, family, c17_findings)
+    if len(det) != len(script):
+        res.failures.append(Failure("tree-differs", {"src": src, "family": family}, "source could not be re-tokenised for attribution",
+                                    bucket="unattributable"))
         return
-    _peel(res, ref, list(script), family, c17_findings)
+    units = _units(script, det)
+    known_units, rest = [], []
+    for u in units:
+        fids = {c17_findings.edit_finding(d) for _, d in u}
+        if len(fids) == 1 and None not in fids and fids <= open_ids:
+            known_units.append((u, next(iter(fids))))
+        else:
+            rest.append(u)
+    if tolerate and known_units and common.h64(src)[-1] != "0":     # deterministic 15-in-16, no draw outside Hypothesis
+        for fid in {f for _, f in known_units}:
+            res.tolerated[fid] = res.tolerated.get(fid, 0) + 1
+        if verdict(ref, _apply(src, rest)) is None:
+            return
+        units = rest
+    applied, withheld = _culprits(ref, units)
+    groups = {}
+    for u in withheld:
+        sig = tuple(sorted({(d["rule"], d["shape"], d["ctx"]) for _, d in u}))
+        fids = {c17_findings.edit_finding(d) for _, d in u}
+        fid = next(iter(fids)) if (len(fids) == 1 and None not in fids and fids <= open_ids) else None
+        groups.setdefault(fid or sig, []).append(u)
+    for key, us in groups.items():
+        text = _apply(src, applied + us)
+        v = verdict(ref, text)
+        if v is None:
+            continue
+        _emit(res, ref, v[0], v[1], us, text, family, c17_findings)
 
 
-def _emit(res, ref, kind, detail, core, family, c17_findings):
-    sig, det = A.signature(ref.src, core, ref.tree)
-    if c17_findings.parser_blank_sensitivity(sig, det):
-        # the parser, not the formatter: one non-empty run of blanks replaced by another
-        res.labels.append("parser-blank-sensitive")
-        res.notes.append({"src": ref.src[:300], "edits": A.brief(det)[:3]})
+def _emit(res, ref, kind, detail, units, text, family, c17_findings):
+    det = [d for u in units for _, d in u]
+    sig = tuple(sorted({(d["rule"], d["shape"], d["ctx"]) for d in det}))
+    why = _exempt(ref, sig, det, text, c17_findings)
+    if why:
+        res.labels.append("exempt:" + why)
+        res.notes.append({"why": why, "src": ref.src[:300], "edits": A.brief(det)[:3]})
         return
     fid = c17_findings.classify(kind, sig, det, _state["open"])
     res.failures.append(Failure(kind, {"src": ref.src, "family": family},
-                                "%s | necessary formatter edits: %s" % (detail, json.dumps(A.brief(det)[:4])),
-                                finding=fid, bucket=fid or "%s:%s" % (kind, "+".join("%s/%s/%s" % s for s in sig[:3]))))
+                                "%s | formatter edits that have to be taken back: %s" % (detail, json.dumps(A.brief(det)[:4])),
+                                finding=fid, bucket=fid or "%s:%s" % (kind, "+".join("%s/%s/%s" % x for x in sig[:3]))))
 
 
-def _peel(res, ref, script, family, c17_findings):
-    """Isolate independent causes: edits that break the oracle on their own first, then 1-minimal
-    subsets (ddmin) of what is left, until the remaining edits are harmless together."""
-    src = ref.src
-    remaining = list(script)
-    if len(remaining) > 1:
-        for e in list(remaining):
-            v = verdict(ref, A.apply_edits(src, [e]))
-            if v is not None:
-                _emit(res, ref, v[0], v[1], [e], family, c17_findings)
-                remaining.remove(e)
-    for _round in range(6):
-        if not remaining:
-            return
-        v = verdict(ref, A.apply_edits(src, remaining))
-        if v is None:
-            return
-        kind, detail = v
+def _exempt(ref, sig, det, text, c17_findings):
+    """Reasons for which a tree difference is not the formatter's doing (see run.assumptions)."""
+    import ast as pyast
+    import builtins
 
-        def fails(text, _k=kind):
-            w = verdict(ref, text)
-            return w is not None and w[0] == _k
+    from vlib import pyoracle
 
-        core = A.isolate(src, remaining, fails)
-        _emit(res, ref, kind, detail, core, family, c17_findings)
-        remaining = [e for e in remaining if e not in core]
+    if c17_findings.parser_blank_sensitivity(sig, det):
+        return "parser-sensitive-to-width-of-a-blank-run"
+    if not all(ctx in ("python", "token", "fstring") for _, _, ctx in sig):
+        return None
+    # CPython as referee for text that is plain Python: same CPython tree => xonsh's two parses disagree
+    # with each other on equivalent Python (C01 territory, e.g. a recorded shape appears only in the output)
+    if "\r" not in ref.src and "\x0c" not in ref.src:
+        try:
+            c1 = astcanon.root_canon(pyoracle.cpy_parse(ref.src))
+            try:
+                c2 = astcanon.root_canon(pyoracle.cpy_parse(text))
+            except (SyntaxError, ValueError):
+                c2 = None
+            if c2 is not None:
+                return "cpython-parses-input-and-output-alike" if c1 == c2 else None
+            return None
+        except (SyntaxError, ValueError, RecursionError, MemoryError):
+            pass
+    # not Python: a statement that was Python in the input and is a command in the output only because
+    # no name is known (ctx=set()); with every name known both parse alike
+    if all(ctx == "python" for _, _, ctx in sig):
+        names = set(dir(builtins))
+        try:
+            names |= {t.string for t in A.real_tokens(ref.src) if t.type == _state["xtok"].NAME}
+            t1 = _state["ex"].parse(ref.src, ctx=set(names), filename="<verif>")
+            t2 = _state["ex"].parse(text, ctx=set(names), filename="<verif>")
+            if astcanon.root_canon(t1) == astcanon.root_canon(t2):
+                return "python-statement-becomes-command-only-under-empty-context"
+        except _Timeout:
+            raise
+        except Exception:  # noqa: BLE001
+            return None
+    return None
 
 
 # ----------------------------------------------------------------------------------------
@@ -783,7 +890,7 @@ def _write(p, text):
 def check_cli(case):
     """case = {'good': text, 'bad': text-or-None, 'breaker': name}.  Returns (Failure|None, nontrivial, labels)."""
     st = _state
-    d = os.path.join(st["scratch"], "cli")
+    d = os.path.join(st["scratch"], "cli-%d" % os.getpid())
     os.makedirs(d, exist_ok=True)
     good, bad = case["good"], case.get("bad")
     labels = []
